@@ -399,8 +399,21 @@ def autotool(selector, undo=False):
     if undo:
         rval = rval.wrap_functions(_untooler)
     else:
-        rval = rval.wrap_functions(_tooler)
-        verify(rval)
+        tooled_so_far = []
+
+        def _tool(fn, captures):
+            _tooler(fn, captures)
+            tooled_so_far.append((fn, captures))
+            return fn
+
+        try:
+            rval = rval.wrap_functions(_tool)
+            verify(rval)
+        except BaseException:
+            # Refused: undo the tooling done so far
+            for fn, captures in reversed(tooled_so_far):
+                _untooler(fn, captures)
+            raise
     return rval
 
 
